@@ -102,6 +102,9 @@ def check(case):
     thr = 1 if case["config"] == "lowthr" else None
     n = len(order)
     with thresholds(thr), quiet():
+        from harness.common import decoy_model
+        if not case.get("wide") and decoy_model(env, recipe, len(show(recipe))):
+            classes.append("after-name-equal-sibling-model")
         try:
             b = BuildAlg(env)
             e = b.ev(recipe)
